@@ -8,7 +8,9 @@
 #![cfg(feature = "f-utf16")]
 use crate::ast::{self, Fl};
 use crate::common::Common;
-use crate::sem::{compile, panic_msg, Hay, MatchRec};
+use crate::sem::{compile, fueled, panic_msg, Hay, MatchRec};
+
+const FUEL: u64 = 2_000_000;
 use serde_json::{json, Value};
 use std::panic::{catch_unwind, AssertUnwindSafe};
 
@@ -123,7 +125,7 @@ pub fn sem16(args: &[String]) -> i32 {
                 let su = if s <= hay.cps.len() { h16.cp_to_unit[s] } else { h16.units.len() + 1 };
                 let sb = if s <= hay.cps.len() { hay.cp_to_byte[s] } else { hay.text.len() + 1 };
                 let mut badv: Vec<String> = Vec::new();
-                let prim = catch_unwind(AssertUnwindSafe(|| drain(re_opt.find_from_utf16(&h16.units, su), limit)));
+                let prim = catch_unwind(AssertUnwindSafe(|| fueled(FUEL, || drain(re_opt.find_from_utf16(&h16.units, su), limit))));
                 let (prim, unfused) = match prim {
                     Ok(v) => v,
                     Err(e) => {
@@ -141,13 +143,13 @@ pub fn sem16(args: &[String]) -> i32 {
                 let prim_recs: Vec<MatchRec> = prim.iter().map(|m| convert16(m, &h16, &mut badv)).collect();
                 // variants
                 let mut variants: Vec<(&str, Result<(Vec<regress::Match>, bool), String>, bool)> = Vec::new();
-                variants.push(("utf16_noopt", catch_unwind(AssertUnwindSafe(|| drain(re_noopt.find_from_utf16(&h16.units, su), limit))).map_err(panic_msg), true));
+                variants.push(("utf16_noopt", catch_unwind(AssertUnwindSafe(|| fueled(FUEL, || drain(re_noopt.find_from_utf16(&h16.units, su), limit)))).map_err(panic_msg), true));
                 if h16.bmp_only {
-                    variants.push(("ucs2_opt", catch_unwind(AssertUnwindSafe(|| drain(re_opt.find_from_ucs2(&h16.units, su), limit))).map_err(panic_msg), true));
-                    variants.push(("ucs2_noopt", catch_unwind(AssertUnwindSafe(|| drain(re_noopt.find_from_ucs2(&h16.units, su), limit))).map_err(panic_msg), true));
+                    variants.push(("ucs2_opt", catch_unwind(AssertUnwindSafe(|| fueled(FUEL, || drain(re_opt.find_from_ucs2(&h16.units, su), limit)))).map_err(panic_msg), true));
+                    variants.push(("ucs2_noopt", catch_unwind(AssertUnwindSafe(|| fueled(FUEL, || drain(re_noopt.find_from_ucs2(&h16.units, su), limit)))).map_err(panic_msg), true));
                 }
-                variants.push(("utf8_opt", catch_unwind(AssertUnwindSafe(|| drain(re_opt.find_from(&hay.text, sb), limit))).map_err(panic_msg), false));
-                variants.push(("utf8_noopt", catch_unwind(AssertUnwindSafe(|| drain(re_noopt.find_from(&hay.text, sb), limit))).map_err(panic_msg), false));
+                variants.push(("utf8_opt", catch_unwind(AssertUnwindSafe(|| fueled(FUEL, || drain(re_opt.find_from(&hay.text, sb), limit)))).map_err(panic_msg), false));
+                variants.push(("utf8_noopt", catch_unwind(AssertUnwindSafe(|| fueled(FUEL, || drain(re_noopt.find_from(&hay.text, sb), limit)))).map_err(panic_msg), false));
                 for (name, r, is16) in variants {
                     nvar += 1;
                     match r {
@@ -218,7 +220,7 @@ pub fn u16robust(args: &[String]) -> i32 {
                             runs += 1;
                             let limit = s.len() + 8;
                             let r = catch_unwind(AssertUnwindSafe(|| {
-                                if ucs2 { drain(re.find_from_ucs2(s, start), limit) } else { drain(re.find_from_utf16(s, start), limit) }
+                                fueled(200_000, || if ucs2 { drain(re.find_from_ucs2(s, start), limit) } else { drain(re.find_from_utf16(s, start), limit) })
                             }));
                             match r {
                                 Err(e) => {
